@@ -69,6 +69,9 @@ TEMPLATES = {
     "optbrkopt": ('<field name="a{i}" type="char" optional="true"/><break/>'
                   '<field name="f{i}" type="string" length="4" padded="true" optional="true"/>', True),
     "optbrkoptc": ('<field name="a{i}" type="char" optional="true"/><break/><field name="f{i}" type="short" optional="true"/>', True),
+    "optbrkswitchopt": ('<field name="a{i}" type="short" optional="true"/><break/><field name="k{i}" type="char"/><switch field="k{i}">'
+                        '<case value="1"><field name="y" type="char" optional="true"/></case></switch>'
+                        '<field name="o{i}" type="short" optional="true"/>', True),
     "optbrkreq": ('<field name="a{i}" type="short" optional="true"/><break/><field name="f{i}" type="char"/>'
                   '<array name="g{i}" type="char" length="2"/>', True),
     "optlenstroff": ('<length name="n{i}" type="short" offset="2" optional="true"/>'
@@ -91,6 +94,9 @@ TEMPLATES = {
     "empty": ('', False),          # an object without instructions (at top: an empty struct)
     "str0dummy": ('<field name="f{i}" type="string" length="0"/><dummy type="short">5</dummy>', False),
     "arrSF": ('<array name="f{i}" type="SF"/>', False),
+    "lenarrbyte": ('<length name="n{i}" type="byte"/><array name="f{i}" type="char" length="n{i}"/>', False),
+    "lenstrbyte": ('<length name="n{i}" type="byte" offset="1"/><field name="f{i}" type="string" length="n{i}"/>', False),
+    "arrCB": ('<array name="f{i}" type="CB"/>', False),
     "optchar": ('<field name="f{i}" type="char" optional="true"/>', False),
     "optstr": ('<field name="f{i}" type="string" optional="true"/>', False),
     "optenum": ('<field name="f{i}" type="E" optional="true"/>', False),
@@ -126,10 +132,18 @@ TEMPLATES = {
 SUPPORT += """
   <struct name="O"><field name="p" type="char"/><field name="o" type="short" optional="true"/></struct>
   <struct name="CO"><chunked><field name="c" type="char"/><field name="o" type="char" optional="true"/></chunked></struct>
+  <struct name="CB"><chunked><field name="p" type="char"/><break/><field name="q" type="short"/></chunked></struct>
   <struct name="SF"><field name="p" type="char"/><field name="s" type="string" length="3" padded="true"/></struct>
   <struct name="SX"><field name="p" type="char" optional="false"/><array name="q" type="char" length="2" optional="false" delimited="false"/></struct>
 """
 
+# the first-generation templates: enumerated exhaustively in pairs by the thorough tier (the later ones, added for specific
+# interactions, are covered singly, in the sampled pairs and triples)
+CORE = ["char", "short", "int", "byte", "bool", "boolshort", "enum", "enumover", "str", "str3", "str4p", "enc", "enc3", "enc4p",
+        "blob", "structS", "structV", "structC", "hard", "hardnamed", "hardstr", "lenstr", "lenstroff", "lenstrneg", "lenarr",
+        "lenarroff", "arr2", "arrS", "arrshort", "arrE", "arrdel", "arrdelstr", "arrdel2nt", "arrdelntnolen", "arrdelntnolenV",
+        "lenarrdelnt", "optchar", "optstr", "optenum", "optarr", "optarrS", "optlenstr", "hardbool", "hardboolun", "hardstrnamed",
+        "dummy", "break", "switchint", "switchenum", "switchdef0", "arrO", "arrCO", "optlenbrk", "three", "optstruct"]
 POSITIONS = ["top", "chunked", "case", "chunkedcase", "afterchunked", "nestedchunked", "casechunked", "afterbreak"]
 
 
